@@ -3,7 +3,7 @@ CONSTANTS
   Mode = "tables"
   Fmts = {"elf", "pe"}
   K1 = 3
-  K2 = 2
+  K2 = 1
   K3 = 0
   NVer = 3
   ReqNames = {"1", "1f", "1_2", "1f_2", "1f_2f", "1f_1", "3f_2f_1f"}
